@@ -80,6 +80,7 @@ Position::Position(std::string fen) : _zobrist_hash()
             _board[square] = piece;
             _by_color_bb[get_color(piece)] |= square_bb(square);
             _by_piece_kind_bb[get_piece_kind(piece)] |= square_bb(square);
+            VERIF_BOUND(_piece_count[piece], 10, "position.cpp:piece_list(fen)");
             _piece_position[piece][_piece_count[piece]++] = square;
 
             ++square;
@@ -370,6 +371,7 @@ void Position::add_piece(Piece piece, Square square)
     _board[square] = piece;
     _by_color_bb[get_color(piece)] |= square_bb(square);
     _by_piece_kind_bb[get_piece_kind(piece)] |= square_bb(square);
+    VERIF_BOUND(_piece_count[piece], 10, "position.cpp:piece_list");
     _piece_position[piece][_piece_count[piece]] = square;
     _piece_count[piece] += 1;
 
@@ -530,6 +532,7 @@ MoveInfo Position::do_move(Move move)
     }
 
     assert(_history_counter < MAX_PLIES);
+    VERIF_BOUND(_history_counter, MAX_PLIES, "position.cpp:history");
     _history[_history_counter++] = _zobrist_hash.get_key();
 
     return create_moveinfo(captured, prev_castling, prev_enpassant_sq,
@@ -741,6 +744,7 @@ Move Position::parse_san(const std::string& str)
     Move movelist[MAX_MOVES];
     Move* begin = movelist;
     Move* end = generate_moves(*this, color(), begin);
+    VERIF_BOUND(end - begin, MAX_MOVES + 1, "position.cpp:parse_san_buffer");
 
     if (str == "0-0" || str == "O-O")
         return std::find(begin, end, KING_CASTLING_MOVE) != end ? KING_CASTLING_MOVE : NO_MOVE;
@@ -822,6 +826,7 @@ std::string Position::san_without_check(Move move) const
     std::array<Move, 128> moves;
     Move* begin = moves.data();
     Move* end = generate_moves(*this, _current_side, begin);
+    VERIF_BOUND(end - begin, moves.size() + 1, "position.cpp:san_buffer");
     std::vector<Move> matching_moves(begin, end);
 
     matching_moves =
